@@ -237,6 +237,15 @@ pub fn c17_case(rs: u64, _nonce: u64, replay: Option<Vec<u32>>) -> CaseOutcome {
             break;
         }
     }
+    for sd in group.iter(md) {
+        let i = sd.configured_address().wrapping_sub(0x1000) as usize;
+        let got = ethercrab::verif::subdevice_open_ports(&sd);
+        let want = w.sim.seg.devices[i].port_open;
+        if got != want {
+            out.violations.push(viol("wrong-ports", format!("device {}: open ports recorded as {:?}, the device reports link on {:?} (port numbers 0..3)", i, got, want)));
+            break;
+        }
+    }
     for &i in &dc {
         let d = &w.sim.seg.devices[i];
         let delay_reg = u32::from_le_bytes(d.mem[0x0928..0x092c].try_into().unwrap());
